@@ -42,7 +42,10 @@ Mod(a, b) == a % b                             \* b > 0 in the universes used
 
 \* helper h with evaluated parameter a applied to input x
 HelperApply(h, a, x) ==
-    CASE h = "add"           -> IF IsInt(x) /\ IsInt(a) THEN Ok(I(x.i + a.i)) ELSE IllTyped
+    CASE h = "add"           -> IF IsInt(x) /\ IsInt(a) THEN Ok(I(x.i + a.i))
+                                ELSE IF x.t = "s" /\ a.t = "s" THEN Ok(Sv(x.s \o a.s))       \* input + parameter, in this order
+                                ELSE IF x.t = "l" /\ a.t = "l" THEN Ok(Lv(x.l \o a.l))
+                                ELSE IllTyped
       [] h = "subtract"      -> IF IsInt(x) /\ IsInt(a) THEN Ok(I(x.i - a.i)) ELSE IllTyped
       [] h = "multiply"      -> IF IsInt(x) /\ IsInt(a) THEN Ok(I(x.i * a.i)) ELSE IllTyped
       [] h = "left_multiply" -> IF IsInt(x) /\ IsInt(a) THEN Ok(I(a.i * x.i)) ELSE IllTyped
